@@ -123,51 +123,46 @@ theorem ite_reach {α : Type} (f : α → Sc) (s : Sc) (c : Prop) [Decidable c] 
     (ha : Reach s (f a)) (hb : Reach s (f b)) : Reach s (f (if c then a else b)) := by
   split <;> assumption
 
-theorem scanNumberTail_reach (ch : Int) (buf : Buf) (s : Sc) : Reach s (scanNumberTail ch buf s).2 := by
-  unfold scanNumberTail scanDecimal
-  simp only []
+theorem scanNumberFrac_reach (ch : Int) (buf : Buf) (s : Sc) : Reach s (scanNumberFrac ch buf s).2 := by
+  unfold scanNumberFrac scanDecimal
   have h1 := decimalLoop_reach (writeChar buf ch) s
-  generalize decimalLoop (writeChar buf ch) s = d at *
-  have h2 : Reach s (if peek d.2 = 46 then decimalLoop (writeChar d.1 (next d.2).1) (next d.2).2 else d).2 := by
-    apply ite_reach (fun x : Buf × Sc => x.2)
-    · exact h1.trans (.step (decimalLoop_reach _ _))
-    · exact h1
-  generalize (if peek d.2 = 46 then decimalLoop (writeChar d.1 (next d.2).1) (next d.2).2 else d) = f at *
   split
-  · refine h2.trans (.step ?_)
-    generalize next f.2 = e
-    have h4 : Reach e.2 (if peek e.2 = 45 ∨ peek e.2 = 43 then
-        ((writeChar (writeChar f.1 e.1) (next e.2).1, (next e.2).2) : Buf × Sc)
-        else (writeChar f.1 e.1, e.2)).2 := by
-      apply ite_reach (fun x : Buf × Sc => x.2)
-      · exact .step (.refl _)
-      · exact .refl _
-    generalize (if peek e.2 = 45 ∨ peek e.2 = 43 then
-        ((writeChar (writeChar f.1 e.1) (next e.2).1, (next e.2).2) : Buf × Sc)
-        else (writeChar f.1 e.1, e.2)) = g at *
-    exact h4.trans (.step (decimalLoop_reach _ _))
-  · exact h2
+  · exact h1.trans (.step (decimalLoop_reach _ _))
+  · exact h1
+
+theorem scanNumberExpPre_reach (f : Buf × Sc) : Reach f.2 (scanNumberExpPre f).2 := by
+  unfold scanNumberExpPre
+  split
+  · exact .step (.step (.refl _))
+  · exact .step (.refl _)
+
+theorem scanNumberTail_reach (ch : Int) (buf : Buf) (s : Sc) (b : Buf) (s' : Sc)
+    (h : scanNumberTail ch buf s = .ok (b, s')) : Reach s s' := by
+  unfold scanNumberTail at h
+  have h1 := scanNumberFrac_reach ch buf s
+  have h2 := scanNumberExpPre_reach (scanNumberFrac ch buf s)
+  split at h
+  · split at h
+    · simp only [Except.ok.injEq] at h
+      have h3 := decimalLoop_reach (writeChar (scanNumberExpPre (scanNumberFrac ch buf s)).1
+        (next (scanNumberExpPre (scanNumberFrac ch buf s)).2).1) (next (scanNumberExpPre (scanNumberFrac ch buf s)).2).2
+      unfold scanDecimal at h
+      rw [h] at h3
+      exact (h1.trans h2).trans (.step h3)
+    · simp at h
+  · simp only [Except.ok.injEq] at h
+    rw [h] at h1; exact h1
 
 theorem scanNumber_reach (ch : Int) (buf : Buf) (s : Sc) (b : Buf) (s' : Sc)
     (h : scanNumber ch buf s = .ok (b, s')) : Reach s s' := by
   unfold scanNumber at h
   split at h
-  · split at h
-    · simp only [] at h
-      split at h
-      · simp at h
-      · simp only [Except.ok.injEq, Prod.mk.injEq] at h
-        rw [← h.2]; exact .step (hexLoop_reach _ _ _)
-    · split at h
-      · simp only [Except.ok.injEq] at h
-        have h1 := scanNumberTail_reach (next s).1 buf (next s).2
-        rw [h] at h1; exact .step h1
-      · simp only [Except.ok.injEq] at h
-        have h1 := scanNumberTail_reach ch buf s
-        rw [h] at h1; exact h1
-  · simp only [Except.ok.injEq] at h
-    have h1 := scanNumberTail_reach ch buf s
-    rw [h] at h1; exact h1
+  · simp only [] at h
+    split at h
+    · simp at h
+    · simp only [Except.ok.injEq, Prod.mk.injEq] at h
+      rw [← h.2]; exact .step (hexLoop_reach _ _ _)
+  · exact scanNumberTail_reach _ _ _ _ _ h
 
 theorem escDigits_reach (i : Nat) (val : Nat) (s : Sc) : Reach s (escDigits i val s).2 := by
   induction i generalizing val s with
@@ -178,21 +173,25 @@ theorem escDigits_reach (i : Nat) (val : Nat) (s : Sc) : Reach s (escDigits i va
     · exact .step (ih _ _)
     · exact .refl _
 
-theorem scanEscape_reach (buf : Buf) (s : Sc) : Reach s (scanEscape buf s).2 := by
+theorem scanEscapeCore_reach (buf : Buf) (s : Sc) : Reach s (scanEscapeCore buf s).2 := by
   have h : Reach s (next s).2 := Reach.next s
   have hd := h.trans (escDigits_reach 2 ((next s).1 - 48).toNat (next s).2)
-  unfold scanEscape
+  unfold scanEscapeCore
   simp only []
   repeat' (apply ite_prop (P := fun r : Buf × Sc => Reach s r.2) <;> intro _)
   all_goals (first | exact h | exact hd)
+
+theorem scanEscape_reach (buf : Buf) (s : Sc) (r : Buf × Sc) (h : scanEscape buf s = .ok r) : Reach s r.2 := by
+  rw [scanEscape_ok buf s r h]; exact scanEscapeCore_reach buf s
 
 theorem stringLoop_reach (quote ch : Int) (buf : Buf) (s : Sc) (b : Buf) (s' : Sc)
     (h : stringLoop quote ch buf s = .ok (b, s')) : Reach s s' := by
   fun_induction stringLoop quote ch buf s
   · simp only [Except.ok.injEq, Prod.mk.injEq] at h; rw [← h.2]; exact .refl _
   · simp at h
-  · rename_i buf s _ _ ih
-    exact ((scanEscape_reach buf s).trans (Reach.next _)).trans (ih h)
+  · simp at h
+  · rename_i buf s r hE _ _ ih
+    exact ((scanEscape_reach buf s r hE).trans (Reach.next _)).trans (ih h)
   · rename_i ch buf s _ _ _ ih
     exact .step (ih h)
 
